@@ -81,10 +81,11 @@ def loopPosW {σ} (ps : List (VParamW σ)) (strict : Bool) (recv : Option Name) 
     match findPW ps k with
     | some p =>
       match p.validate v w with
-      | (.ok v', w') => loopPosW ps strict recv rest (res.set k v') (used ++ [p.name]) (ua ++ [v]) w'
+      | (.ok v', w') => loopPosW ps strict recv rest (res.set k v') (used ++ [p.name]) (writeRecord posDeclaredWrite ua v) w'
       | (.error e, w') => (.error e, w')
     | Option.none =>
-      if posStrictTest strict k recv then (.error .tooMany, w) else loopPosW ps strict recv rest (res.set k v) used ua w
+      if posStrictTest strict k recv then (.error .tooMany, w)
+      else loopPosW ps strict recv rest (res.set k v) used (writeRecord posUndeclaredWrite ua v) w
 
 /-- second loop, the `zip` branch -/
 def loopZipW {σ} : List (PV × VParamW σ) → Assoc → List Name → σ → Except VExc (Assoc × List Name) × σ
@@ -94,8 +95,12 @@ def loopZipW {σ} : List (PV × VParamW σ) → Assoc → List Name → σ → E
     | (.ok v', w') => loopZipW rest (res.set p.name v') (used ++ [p.name]) w'
     | (.error e, w') => (.error e, w')
 
-def zipPairsW {σ} (ps : List (VParamW σ)) (args : List PV) (used : List Name) (ua : List PV) : List (PV × VParamW σ) :=
-  (args.filter (fun a => !ua.contains a)).zip (ps.filter (fun p => !used.contains p.name))
+def zipPairsW {σ} (ps : List (VParamW σ)) (args extras : List PV) (used : List Name) (ua : List PV) : List (PV × VParamW σ) :=
+  (surplusOf args extras ua).zip (ps.filter (fun p => !used.contains p.name))
+
+/-- the strict test in front of the inner loop (generated) -/
+def zipRefusesW {σ} (ps : List (VParamW σ)) (strict : Bool) (args extras : List PV) (used : List Name) (ua : List PV) : Bool :=
+  zipStrictTest strict (surplusOf args extras ua).length (ps.filter (fun p => !used.contains p.name)).length
 
 /-- third loop: `for parameter in unused_parameters` -/
 def loopUnusedW {σ} (sig : Sig) : List (VParamW σ) → Assoc → σ → Except VExc Assoc × σ
@@ -140,7 +145,10 @@ def runLoopW {σ} (c : CfgW σ) (args : List PV) (kw : List (Name × PV)) (l : L
     | .ok b =>
       match loopPosW c.ps c.strict c.sig.receiver b.named st.1 st.2 [] w with
       | (.error e, w') => (.error e, w')
-      | (.ok (r, u, ua), w') => if b.extras.isEmpty then (.ok (r, u), w') else loopZipW (zipPairsW c.ps args u ua) r u w'
+      | (.ok (r, u, ua), w') =>
+        if b.extras.isEmpty then (.ok (r, u), w')
+        else if zipRefusesW c.ps c.strict args b.extras u ua then (.error .tooMany, w')
+        else loopZipW (zipPairsW c.ps args b.extras u ua) r u w'
   | .unused =>
     match loopUnusedW c.sig (c.ps.filter (fun p => !st.2.contains p.name)) st.1 w with
     | (.error e, w') => (.error e, w')
